@@ -125,15 +125,15 @@ static void excl(void) {
 #define HUGE_CHUNK (2u << 20)
 static uint8_t *huge_src(size_t want) {
 	size_t chunks = want / HUGE_CHUNK + 2, total = chunks * HUGE_CHUNK;
-	int fd = memfd_create("verif-huge", 0); if (fd < 0 || ftruncate(fd, HUGE_CHUNK)) abort();
-	uint8_t *pat = mmap(NULL, HUGE_CHUNK, PROT_READ | PROT_WRITE, MAP_SHARED, fd, 0); if (pat == MAP_FAILED) abort();
+	int fd = memfd_create("verif-huge", 0); if (fd < 0 || ftruncate(fd, HUGE_CHUNK)) return NULL;
+	uint8_t *pat = mmap(NULL, HUGE_CHUNK, PROT_READ | PROT_WRITE, MAP_SHARED, fd, 0); if (pat == MAP_FAILED) return NULL;
 	for (size_t i = 0; i < HUGE_CHUNK; i++) pat[i] = (uint8_t) (0x40 + ((i * 2654435761u) >> 13) % 59);
 	/* the first bytes look like a well-formed follow-up entry, so that a truncated length turns the rest into entries nobody added */
 	static const uint8_t forged[] = { 0x00, 0x06, 0x01, 'F', 'O', 'R', 'G', 'E', 'D', 'x' };
 	memcpy(pat + 10, forged, sizeof forged);
 	munmap(pat, HUGE_CHUNK);
-	uint8_t *base = mmap(NULL, total, PROT_NONE, MAP_PRIVATE | MAP_ANONYMOUS | MAP_NORESERVE, -1, 0); if (base == MAP_FAILED) abort();
-	for (size_t c = 0; c < chunks; c++) if (mmap(base + c * HUGE_CHUNK, HUGE_CHUNK, PROT_READ, MAP_SHARED | MAP_FIXED, fd, 0) == MAP_FAILED) abort();
+	uint8_t *base = mmap(NULL, total, PROT_NONE, MAP_PRIVATE | MAP_ANONYMOUS | MAP_NORESERVE, -1, 0); if (base == MAP_FAILED) return NULL;
+	for (size_t c = 0; c < chunks; c++) if (mmap(base + c * HUGE_CHUNK, HUGE_CHUNK, PROT_READ, MAP_SHARED | MAP_FIXED, fd, 0) == MAP_FAILED) return NULL;
 	close(fd);
 	return base;
 }
@@ -146,6 +146,7 @@ static void huge_one(int which, size_t len) {
 	if (!vh_batch_fork()) { vh_case_end(); return; }           /* parent: the child did the work (memory of an accepted entry is released with it) */
 	vh_watchdog_s = 600;
 	uint8_t *src = huge_src(len);
+	if (!src) { printf("@note \"oversize case skipped: cannot map a %zu-byte virtual source on this machine (address space or mapping count)\"\n", len); VH_COUNT("huge_skipped_env", 1); vh_case_end(); vh_batch_exit(); }
 	int fd = tbl_memfd();
 	struct mtbl_writer_options *o = mtbl_writer_options_init(); mtbl_writer_options_set_compression(o, MTBL_COMPRESSION_NONE);
 	struct mtbl_writer *w = mtbl_writer_init_fd(fd, o); mtbl_writer_options_destroy(&o);
